@@ -40,6 +40,7 @@ def shards(tier):
     for i in range(2 if q else 10):
         out.append({"name": "walk.np.jit.%d" % i, "mode": "jit", "backend": "np", "fn": "walk", "n": 40 if q else 250, "len": 200 if q else 2000})
     out.append({"name": "walk.np.interp", "mode": "interp", "backend": "np", "fn": "walk", "n": 10 if q else 100, "len": 150 if q else 600})
+    out.append({"name": "wide.np.jit", "mode": "jit", "backend": "np", "fn": "wide", "n": 1 if q else 12, "len": 40 if q else 150})
     return out
 
 
@@ -485,6 +486,17 @@ def run_walk(shard, rec, B):
                     circ = [C.onsite_rcc(N), C.global_rcc(N)][int(rng.integers(2))]
                     s = list(B.lib.ClassicalShadow(s, circ).snapshots(1))[0]
                     op = "shadow"
+                elif k == 13 and rng.integers(2):
+                    # read-only queries in the middle of a history must leave a valid tableau behind as well
+                    s.entropy(gen.rand_subset(rng, N, int(rng.integers(1, N + 1))))
+                    s.expect(B.PauliList(gen.rand_list(rng, 3, N), np.zeros(3, dtype=np.int64)))
+                    s.sample(2)
+                    s.to_map()
+                    if N - r0 <= 6:
+                        s.density_matrix
+                    if r0 == 0:
+                        s.get_prob(rng.integers(0, 2, N))
+                    op = "queries"
                 else:
                     rcc = [C.onsite_rcc(N), C.global_rcc(N)] + ([C.brickwall_rcc(N, 2)] if N % 2 == 0 else [])
                     rcc[int(rng.integers(len(rcc)))].forward(s)
@@ -502,3 +514,73 @@ def run_walk(shard, rec, B):
         for o in others[-3:]:
             inv.check(o, "copy.earlier", lambda: {"walk": w})
     inv.flush("walk", keys)
+
+
+def run_wide(shard, rec, B):
+    """histories on registers wider than a machine word (66..130 qubits): rotations, measurements of sparse and dense
+    observables, compiled circuits of generator gates on high qubits (numpy-integer qubit labels), queries."""
+    rng = gen.rng_for(rec)
+    st, C = B.stabilizer, B.circuit
+    inv = Inv(rec, B)
+    inv.dense_every = 10 ** 9
+    keys = []
+    for w in range(shard["n"]):
+        for N in (66, 72, 130):
+            hot = [0, 1, 31, 32, 33, 62, 63, 64, 65, N - 2, N - 1]
+            r = [0, 1, N // 2][int(rng.integers(3))]
+            tg, tp, _ = O.random_tableau(rng, N, r=r, nrot=12)
+            s = B.State(tg, tp, r)
+            hist = []
+            for step in range(shard["len"]):
+                k = int(rng.integers(7))
+                g0, p0, r0 = B.state(s)
+                try:
+                    if k == 0:
+                        s.rotate_by(B.Pauli(gen.sparse_string(rng, N, 3) if rng.integers(2) else gen.rand_nonid(rng, N), 2 * int(rng.integers(2))))
+                        op = "rotate"
+                    elif k == 1:
+                        og = np.stack([gen.sparse_string(rng, N, 2)])
+                        for q in rng.choice(hot, size=2, replace=False):
+                            og[0, 2 * q:2 * q + 2] = rng.integers(0, 2, 2)
+                        s.measure(B.PauliList(og, np.array([2 * int(rng.integers(2))])))
+                        op = "measure"
+                    elif k == 2:
+                        og, op_ = gen.commuting_hermitian_list(rng, g0, p0, r0, int(rng.integers(1, 4)))
+                        s.measure(B.PauliList(og, op_))
+                        op = "measure.list"
+                    elif k == 3:
+                        # compiled circuit of generator gates whose supports overlap on high qubits only
+                        circ = C.identity_circuit(N)
+                        for _ in range(int(rng.integers(2, 7))):
+                            G = np.zeros(2 * N, dtype=np.int64)
+                            for q in rng.choice(hot[5:], size=int(rng.integers(1, 4)), replace=False):
+                                G[2 * q:2 * q + 2] = [(1, 0), (0, 1), (1, 1)][int(rng.integers(3))]
+                            circ.take(C.clifford_rotation_gate(B.Pauli(G, 2 * int(rng.integers(2)))))
+                        if rng.integers(2):
+                            circ.compile(N)
+                        (circ.forward if rng.integers(2) else circ.backward)(s)
+                        op = "circuit.gen"
+                    elif k == 4:
+                        n = int(rng.integers(1, 4))
+                        qs = sorted(int(x) for x in rng.choice(hot, size=n, replace=False))
+                        m = np.zeros(N, dtype=bool)
+                        m[qs] = True
+                        s.transform_by(B.Map(*O.random_map(rng, n)), mask=m)
+                        op = "transform.mask"
+                    elif k == 5:
+                        C.MeasureLayer(*[int(x) for x in rng.choice(hot, size=3, replace=False)], N=N).forward(s)
+                        op = "measure_layer"
+                    else:
+                        s.entropy([int(x) for x in rng.choice(N, size=N // 2, replace=False)])
+                        s.expect(B.PauliList(gen.rand_list(rng, 2, N), np.zeros(2, dtype=np.int64)))
+                        s.sample(2)
+                        op = "queries"
+                except Exception as e:
+                    rec.violation("wide.%s.raises" % k, {"history": hist[-8:], "N": N}, expected="a result", observed="%s: %s" % (type(e).__name__, str(e)[:300]))
+                    break
+                hist.append(op)
+                okk = inv.check(s, op, lambda: {"N": N, "walk": w, "step": step, "recent": hist[-10:]})
+                keys.append(hash((w, N, step, rec.seed)) & 0xFFFFFFFFFFFF)
+                if not okk:
+                    break
+    inv.flush("walk.wide", keys)
